@@ -370,7 +370,8 @@ def dropStreamRef (s : Streams) (id : Nat) : Streams :=
   let s := if (s.stream id).refCount > 0 then s else s.panic "assertion failed: self.ref_count > 0"
   let s := s.modStream id fun st => { st with refCount := st.refCount - 1 }
   let st := s.stream id
-  let s := if st.refCount == 0 && st.isClosed then s.notifyTask else s
+  -- (… or this was the last reference besides the connection's own: repair F35)
+  let s := if (st.refCount == 0 && st.isClosed) || s.refs == 1 then s.notifyTask else s
   (s.transition id fun s =>
     let s := s.maybeCancel id
     if (s.stream id).refCount == 0 then
